@@ -9,7 +9,7 @@ BUDGET = {"quick": 1600, "thorough": 200000}
 RULE = ("scenario = 2-7 jobs with tag sets drawn from a 5-tag universe (incl. empty, equal, nested, disjoint), created through all six "
         "calls; once() with all four timing kinds and tags given as set, frozenset, list, tuple, generator, dict keys or None; "
         "queries get_jobs / delete_jobs with subset, superset, overlapping, disjoint, empty and None tag sets and both any_tag "
-        "values, interleaved with polls and with the caller mutating a tag set it passed earlier; Spec: returned / deleted set = the set computed from the ORIGINAL tags by the property's "
+        "values, interleaved with polls (half of them with callbacks that query / delete by tag while the batch is in flight) and with the caller mutating a tag set it passed earlier; Spec: returned / deleted set = the set computed from the ORIGINAL tags by the property's "
         "own rule; non-trivial = a query that selects some but not all jobs, or a once() call with a non-set iterable; "
         "distinct by scenario hash")
 ASSUMPTIONS = c01.ASSUMPTIONS
@@ -55,7 +55,16 @@ def scenarios(rng, n, tier):
             elif c < 0.8:
                 scn["ops"].append({"op": "dtags", "tags": q, "any": any_})
             else:
-                scn["ops"].append({"op": "exec", "rel": [rng.randrange(nj), rng.choice([0, 1])]})
+                e = {"op": "exec", "rel": [rng.randrange(nj), rng.choice([0, 1, core.DAY])], "force": rng.random() < 0.3}
+                if rng.random() < 0.5:
+                    # tag queries made by callbacks while the batch is in flight (jobs that have just used their last
+                    # attempt are still registered at that moment and belong to the selection)
+                    scripts = {}
+                    for kk in rng.sample(range(nj), rng.randint(1, min(nj, 3))):
+                        qq = sorted(rng.sample(range(1, 7), rng.randint(1, 2)))
+                        scripts[str(kk)] = [{"op": rng.choice(["get", "get", "dtags"]), "tags": qq, "any": rng.random() < 0.5}]
+                    e["scripts"] = scripts
+                scn["ops"].append(e)
         yield scn
 
 
@@ -83,6 +92,18 @@ def specs(r):
             else:
                 ok = res == ("c", len(sel)) and now == before - sel
                 qs.append((f"spec eq {1 if ok else 0} 1", {"what": "delete_exactly", "op": i, "got": list(res), "want": sorted(sel)}))
+        elif o["op"] == "exec":
+            for c in ob.get("cops", []):
+                if c["op"] in ("get", "dtags") and c.get("ok"):
+                    q = set(c.get("tags") or [])
+                    bset = set(c["before"])
+                    sel = {k for k in bset if (not q) or (bool(q & tags.get(k, set())) if c.get("any") else q <= tags.get(k, set()))}
+                    if c["op"] == "get":
+                        ok = set(c["result"]) == sel
+                        qs.append((f"spec eq {1 if ok else 0} 1", {"what": "select_iff (query from a callback, batch in flight)", "op": i, "got": c["result"], "want": sorted(sel)}))
+                    else:
+                        ok = c["n"] == len(sel) and set(c["after"]) == bset - sel
+                        qs.append((f"spec eq {1 if ok else 0} 1", {"what": "delete_exactly (from a callback, batch in flight)", "op": i, "n": c["n"], "want": sorted(sel)}))
     return qs
 
 
